@@ -18,7 +18,7 @@ TECHNIQUE = ("runtime differential monitor: File.validate() on generated files v
              "injection of catalogued inconsistencies")
 RULE = ("Case = one validate() call on one generated file state: the well-formed file, or the file after 1-2 injections out of 39 kinds "
         "(surplus / missing descriptors, tick / label count, missing / unsorted ticks, non-SI dimension unit, missing / negative "
-        "interval, missing position(s), position / extent / unit length mismatches, non-SI and unconvertible tag units, missing "
+        "interval, missing position(s) (no rows, or no positions array at all), position / extent / unit length mismatches, non-SI and unconvertible tag units, missing "
         "type / name / date / id on every entity kind, on properties and features) at a random eligible object.  Files: 1-2 blocks, "
         "2-6 arrays of rank 1-3 over {sampled, range with stored ticks / linked to another array / using its own data, set(labelled / label-less)}, units over 21 prefixes x 12 base units incl. mol, "
         "Sv, Wb, powers, unit-less; 0-4 tags and multi-tags.  Distinct by (injection kinds, object kinds hit, descriptor mix of the "
